@@ -20,6 +20,13 @@ Proved here, about the model `EncTotal.lean` (tied to the code by the differenti
   `n1, n2, n4, n5, n6, n10::from_f32`, `s8::from_uf32` and the packed formats built from them, again
   on bit patterns with the software binary32: the rounding hypotheses of `quantiser_range_unorm`,
   `quantiser_range_snorm` (8 bit) and `packed_formats_fit` are discharged for binary32;
+* `quantiser_range_snorm16_bits`, `s16_from_uf32_exact`, `s16_encodes_nearest`,
+  `snorm16_formats_fit_bits` — `s16::from_uf32`, the one quantiser that computes in **binary64**
+  (`x.min(1.0) as f64 * 65534.0 + 0.5`), on binary32 bit patterns with the software binary64 of
+  `ConvF64.lean`: no pattern makes `norm + 1` overflow; the binary64 evaluation is exact, so
+  `norm = ⌊clamp(v)·65534 + 1/2⌋` and the stored code is `Quant.sencode 16` (C12's specification)
+  of the value, within half a SNORM16 step of the clamped input; R16_SNORM, R16G16_SNORM and
+  R16G16B16A16_SNORM encode every pixel to exactly the 16-bit field packing;
 * `refine_loops_bounded` — the only data-dependent loop of the block encoders runs at most
   `max_iter` times, and `max_iter ≤ 10` at every quality;
 * `empty_image_ok` — empty images give `Ok` and not a single byte, in every family, even with
@@ -35,6 +42,7 @@ import DdsModel.Proofs.EncQuant
 import DdsModel.Proofs.SharedExp
 import DdsModel.Proofs.SharedExpTie
 import DdsModel.Proofs.QuantBits
+import DdsModel.Proofs.QuantBits64
 namespace Dds.C15
 open Dds Dds.EncTotal
 
@@ -373,7 +381,7 @@ EVERY pattern `x` (NaN of any payload and sign, ±∞, both zeros, negative, sub
 result is at most `MAX`; in `s8::from_norm` the `debug_assert!(x <= 254)` holds and `x + 1` does
 not overflow `u8`.  This is `quantiser_range_unorm` / `quantiser_range_snorm` (8 bit) with the
 hypotheses `R.fixes MAX`, `R.fixes (MAX + ½)` discharged for binary32.  (`s16::from_uf32`
-computes in `f64`: it stays with `quantiser_range_snorm`.) -/
+computes in `f64`: `quantiser_range_snorm16_bits` below.) -/
 theorem quantiser_range_unorm_bits (x : Nat) (hx : x < 2 ^ 32) :
     QuantBits.n1 x ≤ 1 ∧ QuantBits.n2 x ≤ 3 ∧ QuantBits.n4 x ≤ 15 ∧ QuantBits.n5 x ≤ 31 ∧
     QuantBits.n6 x ≤ 63 ∧ QuantBits.n10 x ≤ 1023 ∧ ∃ v, QuantBits.s8 x = some v ∧ v < 2 ^ 8 :=
@@ -410,6 +418,82 @@ theorem packed_formats_fit_bits (r g b a : Nat) (hr : r < 2 ^ 32) (hg : g < 2 ^ 
   ⟨QuantBits.encode_b5g6r5 r g b a hr hg hb, QuantBits.encode_b5g5r5a1 r g b a hr hg hb,
    QuantBits.encode_b4g4r4a4 r g b a hr hg hb ha, QuantBits.encode_r10g10b10a2 r g b a hr hg hb ha,
    QuantBits.encode_rgba8_snorm r g b a hr hg hb ha⟩
+
+/-- **`s16::from_uf32`, every bit pattern, no rounding hypothesis.**
+`let x = x.min(1.0) as f64; let norm = (x * 65534.0 + 0.5) as u16; (norm + 1).wrapping_sub(32768)`
+on binary32 bit patterns: `f32::min` of `ConvF32.lean`, then the exact widening, one correctly
+rounded binary64 multiplication, one correctly rounded binary64 addition and the saturating cast
+of `ConvF64.lean`.  For EVERY pattern `x` (NaN of any payload and sign, ±∞, both zeros, negative,
+subnormal, huge) `norm + 1` does not overflow `u16` (`some`: no panic in the checked profile)
+and the result fits 16 bits.  This is `quantiser_range_snorm` at 16 bits with the hypotheses
+`R.fixes 65534`, `R.fixes (65534 + ½)` discharged for binary64. -/
+theorem quantiser_range_snorm16_bits (x : Nat) (hx : x < 2 ^ 32) :
+    ∃ v, QuantBits.s16 x = some v ∧ v < 2 ^ 16 :=
+  QuantBits.s16_some x hx
+
+example : QuantBits.s16 0x7FC00000 = some 32767 ∧ QuantBits.s16 0xFF800000 = some 32769 ∧
+    QuantBits.s16 0x3F000000 = some 0 := by decide +kernel
+
+/-- **The binary64 evaluation of `s16::from_uf32` is exact.**  `norm` (before `from_norm`) for
+every binary32 pattern, by class:
+* NaN (any payload, either sign) gives 65534 — `f32::min` returns the other operand, 1.0;
+* every pattern from 1.0 up to and including `+∞` gives 65534;
+* every negative pattern, `-0.0` and `-∞` included, gives 0;
+* for `0 ≤ x ≤ 1`, with `x = m·2^-k` (`m = mant x`, `k = -expo x`): `norm = ⌊(m·65534 + 2^(k-1)) /
+  2^k⌋ = ⌊v·65534 + 1/2⌋` in exact integer resp. rational arithmetic.  The widening is exact, the
+  product of a 24-bit and a 16-bit significand has at most 40 bits, the sum with 0.5 has at most
+  53 bits when `k ≤ 53`; for `k > 53` (`x < 2^-30`, product below `2^-14`) the sum IS rounded,
+  stays below 0.75, and the cast gives 0 = the floor of the exact sum;
+* in every case `norm = Quant.sq 16 (uvalue x)`, C12's real-number quantiser
+  `⌊clamp01(v)·65534 + 1/2⌋` of the value (`uvalue`: NaN ↦ 1, `+∞ ↦ 2`, `-∞ ↦ -1`, finite ↦ value). -/
+theorem s16_from_uf32_exact (x : Nat) (hx : x < 2 ^ 32) :
+    (CF32.isNaN x = true → QuantBits.s16Norm x = 65534) ∧
+    (CF32.one ≤ x → x ≤ CF32.posInf → QuantBits.s16Norm x = 65534) ∧
+    (CF32.signBit ≤ x → x ≤ CF32.negInf → QuantBits.s16Norm x = 0) ∧
+    (x ≤ CF32.one →
+      QuantBits.s16Norm x =
+        (CF32.mant x * 65534 + 2 ^ ((-CF32.expo x).toNat - 1)) / 2 ^ (-CF32.expo x).toNat ∧
+      QuantBits.s16Norm x = Quant.roundHalfUp (CF32.toRat x * 65534)) ∧
+    QuantBits.s16Norm x = Quant.sq 16 (QuantBits.uvalue x) :=
+  ⟨fun h => QuantBits.s16Norm_of_fmin_one x (QuantBits.fmin_of_nan x h),
+   fun h1 h2 => QuantBits.s16Norm_of_fmin_one x (QuantBits.fmin_of_ge_one x h1 h2),
+   fun h1 h2 => QuantBits.s16Norm_negR x ⟨h1, h2⟩,
+   fun h => ⟨QuantBits.s16Norm_le_one x h, QuantBits.s16Norm_le_one_rat x h⟩,
+   QuantBits.s16Norm_eq_sq x hx⟩
+
+/-- the classes are inhabited and cover the rounding boundary: `0.5/65534` rounded to `f32`
+(`0x37000100`) is below the exact tie and gives 0, its successor gives 1; the smallest subnormal
+(`k = 149`: the sum with 0.5 is rounded in binary64) gives 0 -/
+example : QuantBits.s16Norm 0x7FA55AA5 = 65534 ∧ QuantBits.s16Norm 0x7F7FFFFF = 65534 ∧
+    QuantBits.s16Norm 0x80000000 = 0 ∧ QuantBits.s16Norm 0x37000101 = 1 ∧
+    QuantBits.s16Norm 0x37000100 = 0 ∧ QuantBits.s16Norm 1 = 0 ∧
+    QuantBits.s16Norm 0x3F7FFFFF = 65534 ∧ QuantBits.s16Norm 0x3F7FFF00 = 65533 := by
+  decide +kernel
+
+/-- **Connection to C12** (`Quant.sencode`, `C12.snorm_half_step`): the SNORM16 code the code
+stores for ANY binary32 input is the specified one, `Quant.sencode 16` of its value — so for the
+`f32` evaluation that C12 leaves to the exhaustive tie, SNORM16 needs no tie: decoding the stored
+code (`Quant.sdeq 16`) lands within half a SNORM16 step, `1/(2·65534)`, of the clamped input. -/
+theorem s16_encodes_nearest (x : Nat) (hx : x < 2 ^ 32) :
+    QuantBits.s16 x = some (Quant.sencode 16 (QuantBits.uvalue x)) ∧
+    ∃ v, QuantBits.s16 x = some v ∧ v < 2 ^ 16 ∧
+      Quant.sdeq 16 v - Quant.clamp01 (QuantBits.uvalue x) ≤ 1 / (2 * 65534) ∧
+      -(1 / (2 * 65534)) ≤ Quant.sdeq 16 v - Quant.clamp01 (QuantBits.uvalue x) :=
+  ⟨QuantBits.s16_eq_sencode x hx, QuantBits.s16_half_step x hx⟩
+
+/-- **R16_SNORM, R16G16_SNORM, R16G16B16A16_SNORM, every RGBA `f32` pixel**: no channel panics,
+the encoded pixel is exactly the packing of the 16-bit codes and fits 16 / 32 / 64 bits. -/
+theorem snorm16_formats_fit_bits (r g b a : Nat) (hr : r < 2 ^ 32) (hg : g < 2 ^ 32)
+    (hb : b < 2 ^ 32) (ha : a < 2 ^ 32) :
+    ∃ r' g' b' a', QuantBits.s16 r = some r' ∧ QuantBits.s16 g = some g' ∧
+      QuantBits.s16 b = some b' ∧ QuantBits.s16 a = some a' ∧
+      QuantBits.encode16 "R16_SNORM" r g b a = some r' ∧ r' < 2 ^ 16 ∧
+      QuantBits.encode16 "R16G16_SNORM" r g b a = some (pack [(r', 16), (g', 16)]) ∧
+      pack [(r', 16), (g', 16)] < 2 ^ 32 ∧
+      QuantBits.encode16 "R16G16B16A16_SNORM" r g b a =
+        some (pack [(r', 16), (g', 16), (b', 16), (a', 16)]) ∧
+      pack [(r', 16), (g', 16), (b', 16), (a', 16)] < 2 ^ 64 :=
+  QuantBits.encode16_fit r g b a hr hg hb ha
 
 /-- **Packing.** Fields that fit their widths pack into the sum of the widths, and the lowest
 field and the remaining fields are read back unchanged: no shift overflows into a neighbour. -/
